@@ -342,3 +342,35 @@ func (g *G) genRootless(id string) *History {
 	}
 	return h
 }
+
+// genHostOverride: http.Request.Host names the authority the origin sees, URL.Host only where the connection
+// goes (a client that connects to an address and names the virtual host itself). Requests for one URL value
+// with different Host fields are requests for different URIs; a Host that equals the URL's authority (in any
+// equivalent spelling) changes nothing.
+func (g *G) genHostOverride(id string) *History {
+	h := &History{ID: id, Prop: g.prop, Class: "host-override", Backend: pick(g, "mem", "mem", "fs"), Logger: "discard"}
+	url := pick(g, "http://127.0.0.1:8080/private", "http://a.test/p", "https://gw.example/x?y=1")
+	hosts := []string{"alice.example", "bob.example", "", "ALICE.example", "alice.example:80", "alice.example:8080"}
+	at := int64(0)
+	for i := 0; i < 2+g.r.Intn(4); i++ {
+		hv := hosts[g.r.Intn(len(hosts))]
+		if i < 2 {
+			hv = hosts[i]
+		}
+		h.Ops = append(h.Ops, Op{Op: "req", AtNs: at, Method: "GET", URL: url, Host: hv,
+			Replies: []Reply{{Status: 200, BodyFail: -1, Body: "for-" + hv, Hdr: Hdr{{"Date", dateAt(at, 0)}, {"Cache-Control", "max-age=600"}}}}})
+		at += pick(g, sec, 5*sec, 20*sec)
+	}
+	if g.chance(0.3) {
+		// an unsafe request under one Host invalidates what is stored for THAT authority
+		h.Ops = append(h.Ops, Op{Op: "req", AtNs: at, Method: "POST", URL: url, Host: hosts[g.r.Intn(2)],
+			Replies: []Reply{{Status: 200, BodyFail: -1, Body: "w", Hdr: Hdr{{"Date", dateAt(at, 0)}}}}})
+		at += sec
+		for i := 0; i < 2; i++ {
+			h.Ops = append(h.Ops, Op{Op: "req", AtNs: at, Method: "GET", URL: url, Host: hosts[i],
+				Replies: []Reply{{Status: 200, BodyFail: -1, Body: "again", Hdr: Hdr{{"Date", dateAt(at, 0)}, {"Cache-Control", "max-age=600"}}}}})
+			at += sec
+		}
+	}
+	return h
+}
